@@ -288,6 +288,19 @@ def dump_kwargs():
 _DUMP_KW = None
 
 
+def np_generic_first(t) -> bool:
+    """does numpy.generic precede the builtin scalar classes in the MRO (numpy.float64: yes; numpy.str_: no)?"""
+    try:
+        import numpy as np
+    except ImportError:  # pragma: no cover
+        return False
+    mro = t.__mro__
+    if np.generic not in mro:
+        return False
+    g = mro.index(np.generic)
+    return all(mro.index(b) > g for b in (str, bytes, int, float, complex) if b in mro)
+
+
 class Caser:
     """One conversion session: identities are numbered in visiting order; everything visited is kept alive."""
 
@@ -334,6 +347,9 @@ class Caser:
             import numpy as np
         except ImportError:  # pragma: no cover
             np = None
+        if isinstance(o, (str, bytes, int, float, complex)) and not (np_generic_first(t)):
+            # subclasses of builtin scalars (numpy.str_, numpy.bytes_, IntEnum, …) reach the builtin's serializer
+            raise Unsupported("subclass of a builtin scalar")
         if np is not None and isinstance(o, (np.ndarray, np.generic)):
             if o.dtype == "object":
                 raise Unsupported("object array")
@@ -797,7 +813,8 @@ def gen_ndarray(rng):
     else:
         data = bytes(rng.choice([0, 0, 1, 2, 255]) if rng.random() < 0.5 else 0 for _ in range(n * size))
     if shape == ():
-        return {"k": "npscalar", "dtype": dt, "hex": data[:size].hex()} if rng.random() < 0.5 else {
+        # numpy.str_ is a str subclass and reaches the str serializer: string *scalars* are outside the grammar
+        return {"k": "npscalar", "dtype": dt, "hex": data[:size].hex()} if (rng.random() < 0.5 and dt != "<U2") else {
             "k": "ndarray", "dtype": dt, "shape": [], "hex": data[:size].hex()}  # fmt: skip
     return {"k": "ndarray", "dtype": dt, "shape": list(shape), "hex": data.hex()}
 
